@@ -629,6 +629,9 @@ class Interp:
                     and v.value.id in fr.locals and (isinstance(fr.locals[v.value.id], int) or is_sym_int(fr.locals[v.value.id])) \
                     and not isinstance(fr.locals[v.value.id], bool):
                 parts.append(fr.locals[v.value.id])
+            elif isinstance(v, ast.FormattedValue) and isinstance(v.value, ast.Name) and v.conversion == -1 and v.format_spec is None \
+                    and isinstance(fr.locals.get(v.value.id), AObj) and fr.locals[v.value.id].clsname == "fs.Path":
+                parts.append(fr.locals[v.value.id])  # a path interpolated into a message
             else:
                 return "<fstring@%s>" % node.lineno
         if all(isinstance(x, str) for x in parts):
